@@ -100,9 +100,11 @@ TRACK = H.part("VF_TRACK", 0)   # 0 instrument, 1 sync, 2 global events
 W_LINES = ["w0", "w1", "w2"]
 
 
-def _stub(kind_cls, k, accept):
+def _stub(kind_cls, k, accept, lines=None):
+    lines = W_LINES if lines is None else lines
+
     def f(cls, line):
-        if accept[W_LINES.index(line)]:
+        if accept[lines.index(line)]:
             return _Datum(k, line)
         raise RegexNotMatchError("stub", line)
     return classmethod(f)
@@ -131,11 +133,12 @@ def track_dispatch_wiring(a0: bool, a1: bool, a2: bool, b0: bool, b1: bool, b2: 
         pos = [2, 1, 0]      # returned tuple: (text, section, lyric)
     saved = [c.__dict__.get("from_chart_line") for c in classes]
     log = H.CountingLogger()
+    wl = fresh_lines(3)
     try:
         for k, c in enumerate(classes):
-            c.from_chart_line = _stub(c, k, acc[k])
+            c.from_chart_line = _stub(c, k, acc[k], wl)
         with H.patched((T, "logger", log)):
-            out = call(list(W_LINES))
+            out = call(list(wl))
     finally:
         for c, s in zip(classes, saved):
             if s is None:
@@ -158,7 +161,7 @@ def track_dispatch_wiring(a0: bool, a1: bool, a2: bool, b0: bool, b1: bool, b2: 
         if not ok:
             return done(False)
         for j, i in enumerate(want[k]):
-            ok = ok and lst[j].kind == k and lst[j].line == W_LINES[i]
+            ok = ok and lst[j].kind == k and lst[j].line == wl[i]
     return done(ok)
 
 
